@@ -526,6 +526,7 @@ func main() {
 	}
 	probeNum := r.Pick(4000, 20000) // single worker
 	dlNum := r.Pick(2000, 5000)     // per worker, 2 workers (report-only InvDeadlock sample)
+	focusNum := r.Pick(6000, 60000) // per worker, 4 workers (focused all-good MaxView=2 runs)
 	depth := 100
 	slots := 16
 	if v, err := strconv.Atoi(os.Getenv("C20_SLOTS")); err == nil && v >= 4 {
@@ -617,6 +618,14 @@ func main() {
 			if sr.Def.Deadlock {
 				mk("deadlock", "InvDeadlock", false, 2, dlNum, []string{"InvDeadlock"})
 			}
+			if c.Kind == "allgood" && c.MaxView == 2 {
+				// focused simulation: same invariants, behaviours pruned to those that decide only
+				// after at least one view change (deep behaviours are otherwise too rare)
+				fc := fmt.Sprintf("FocusLateViews%d", sr.Def.InitView+1)
+				j := mk("focus", fc, false, 4, focusNum, sr.Invs)
+				j.Module = "MC_probe.tla"
+				j.CfgText = strings.Replace(j.CfgText, "CONSTRAINT "+sr.Constr+"\n", "CONSTRAINTS\n  "+sr.Constr+"\n  "+fc+"\n", 1)
+			}
 		}
 	}
 
@@ -648,7 +657,7 @@ func main() {
 		}
 		_ = os.WriteFile(filepath.Join(j.Dir, j.Spec.Def.File), j.Spec.Text, 0o644)
 		_ = os.WriteFile(filepath.Join(j.Dir, "MC.cfg"), []byte(j.CfgText), 0o644)
-		if j.Kind == "probe" {
+		if j.Kind == "probe" || j.Kind == "focus" {
 			pb, err := probeFS.ReadFile("probes/" + probeFile(j.Spec.Def))
 			if err != nil {
 				j.Err, j.RC = "embedded probe module missing: "+err.Error(), -1
@@ -879,6 +888,25 @@ func evaluate(r *ev.Run, runs []*specRun, jobs []*job, thorough bool) {
 		complete := usable
 		for _, j := range js {
 			switch j.Kind {
+			case "focus":
+				fc, fd := classify(j)
+				switch fc {
+				case clOK:
+					totalStates += j.States
+					totalTraces += j.Traces
+					r.Eval(j.Traces)
+					r.Count("focused_runs", 1)
+					r.Count("focused_states", j.States)
+				case clViolated:
+					r.Eval(j.Traces)
+					report("invariant:"+j.Violated+":"+sr.Def.Name+":"+j.Cfg.Kind,
+						fmt.Sprintf("TLC simulation of formal-models/%s/%s with %s and focus constraint %s: invariant %s is violated in a generated behaviour of %d states (after %d traces / %d states)",
+							sr.Def.Name, sr.Def.File, j.Cfg, j.Probe, j.Violated, j.TraceLen, j.Traces, j.States),
+						witness(j, map[string]any{"invariant": j.Violated, "focus_constraint": j.Probe, "trace_states": j.TraceLen, "trace": strings.Split(clip(j.Trace, 60000), "\n")}))
+				default:
+					r.Count("focused_runs_unusable", 1)
+					row["focus_run"] = fd
+				}
 			case "probe":
 				if !usable {
 					continue
